@@ -144,6 +144,30 @@ def _clone(n):
     return n
 
 
+def _split_new_name_tuples(fnode, known_locals: set) -> None:
+    """`a, b = (x, y)` where a, b are names the reference does not know and x, y plain names / constants (what N13 and pair-returning helpers
+    leave behind) becomes `a = x; b = y` (no target is read on the right), so that N8 can see each as the copy it is."""
+    def do_block(body: List[ast.stmt]) -> None:
+        i = 0
+        while i < len(body):
+            st = body[i]
+            if (isinstance(st, ast.Assign) and len(st.targets) == 1 and isinstance(st.targets[0], ast.Tuple) and isinstance(st.value, ast.Tuple)
+                    and len(st.targets[0].elts) == len(st.value.elts) and all(isinstance(t, ast.Name) and t.id not in known_locals for t in st.targets[0].elts)
+                    and all(isinstance(v, (ast.Name, ast.Constant)) for v in st.value.elts)
+                    and not ({t.id for t in st.targets[0].elts} & {v.id for v in st.value.elts if isinstance(v, ast.Name)})):
+                body[i:i + 1] = [ast.copy_location(ast.Assign(targets=[t], value=v, lineno=st.lineno), st) for t, v in zip(st.targets[0].elts, st.value.elts)]
+                continue
+            if not isinstance(st, (ast.FunctionDef, ast.AsyncFunctionDef, ast.ClassDef)):
+                for fld in ('body', 'orelse', 'finalbody'):
+                    b = getattr(st, fld, None)
+                    if isinstance(b, list) and b and isinstance(b[0], ast.stmt):
+                        do_block(b)
+                for h in getattr(st, 'handlers', []) or []:
+                    do_block(h.body)
+            i += 1
+    do_block(fnode.body)
+
+
 def _n8(fnode, known_locals: set, stats) -> None:
     """N8: a *new* local (unknown to the reference vocabulary) that is bound once to an access path (`entry = table[key]`) and only read
     afterwards in the same block is an alias: its reads are replaced by the path.  Nothing the path mentions may be rebound, and nothing
@@ -158,8 +182,10 @@ def _n8(fnode, known_locals: set, stats) -> None:
 
     def do_block(body: List[ast.stmt]) -> None:
         for i, st in enumerate(body):
-            if (isinstance(st, ast.Assign) and len(st.targets) == 1 and isinstance(st.targets[0], ast.Name) and isinstance(st.value, (ast.Subscript, ast.Attribute, ast.Call))
-                    and _is_path(st.value)):
+            plain_copy = isinstance(st, ast.Assign) and len(st.targets) == 1 and isinstance(st.targets[0], ast.Name) and isinstance(st.value, ast.Name) \
+                and st.value.id not in nested
+            if plain_copy or (isinstance(st, ast.Assign) and len(st.targets) == 1 and isinstance(st.targets[0], ast.Name) and isinstance(st.value, (ast.Subscript, ast.Attribute, ast.Call))
+                              and _is_path(st.value)):
                 a = st.targets[0].id
                 if a in known_locals or a in params or a in nested or binds.get(a) != 1:
                     continue
@@ -172,13 +198,26 @@ def _n8(fnode, known_locals: set, stats) -> None:
                     continue
                 ok = True
                 path_dump = ast.dump(st.value)
+
+                def self_copy(r) -> bool:
+                    # `x = alias` where alias stands for x: disappears once the alias is replaced
+                    return plain_copy and isinstance(r, ast.Assign) and len(r.targets) == 1 and isinstance(r.targets[0], ast.Name) and r.targets[0].id == st.value.id \
+                        and isinstance(r.value, ast.Name) and r.value.id == a
+                killed = False
                 for r in rest:
+                    if self_copy(r):
+                        continue
+                    reads_here = any(isinstance(x, ast.Name) and x.id == a and isinstance(x.ctx, ast.Load) for x in ast.walk(r))
+                    kills_here = False
                     for x in ast.walk(r):
                         if isinstance(x, ast.Name) and isinstance(x.ctx, (ast.Store, ast.Del)) and x.id in mentioned:
-                            ok = False
+                            kills_here = True
                         # a store that replaces the aliased object itself: <path> = … / del <path>
                         if isinstance(x, (ast.Subscript, ast.Attribute)) and isinstance(x.ctx, (ast.Store, ast.Del)) and ast.dump(x).replace('Store()', 'Load()').replace('Del()', 'Load()') == path_dump:
-                            ok = False
+                            kills_here = True
+                    if reads_here and (killed or kills_here):
+                        ok = False
+                    killed = killed or kills_here
                 if not ok:
                     continue
 
@@ -189,6 +228,13 @@ def _n8(fnode, known_locals: set, stats) -> None:
                         return node
                 for k in range(i + 1, len(body)):
                     body[k] = R().visit(body[k])
+                if plain_copy:
+                    # the copy itself and the `x = x` it leaves behind are dead
+                    dead = [st] + [r for r in body[i + 1:] if isinstance(r, ast.Assign) and len(r.targets) == 1 and isinstance(r.targets[0], ast.Name)
+                                   and isinstance(r.value, ast.Name) and r.value.id == r.targets[0].id == st.value.id]
+                    body[:] = [r for r in body if not any(r is d for d in dead)] or [ast.copy_location(ast.Pass(), st)]
+                    stats['N8'] = stats.get('N8', 0) + 1
+                    return do_block(body)
                 stats['N8'] = stats.get('N8', 0) + 1
         for st in body:
             if isinstance(st, (ast.FunctionDef, ast.AsyncFunctionDef, ast.ClassDef)):
@@ -407,8 +453,8 @@ def _const_rows(e, consts) -> Optional[list]:
     for x in e.elts:
         if isinstance(x, ast.Constant):
             rows.append(x)
-        elif isinstance(x, (ast.Tuple, ast.List)) and x.elts and all(isinstance(y, ast.Constant) for y in x.elts):
-            rows.append(x)
+        elif isinstance(x, (ast.Tuple, ast.List)) and x.elts and all(isinstance(y, (ast.Constant, ast.Name)) for y in x.elts):
+            rows.append(x)         # plain names are fine as long as the loop body does not rebind them (checked by the caller)
         else:
             return None
     return rows
@@ -422,6 +468,17 @@ def _n11(body: List[ast.stmt], consts, stats) -> List[ast.stmt]:
         done = False
         if isinstance(st, ast.For) and not st.orelse:
             rows = _const_rows(st.iter, consts)
+            local_table = None
+            if rows is None and isinstance(st.iter, ast.Name) and out and isinstance(out[-1], ast.Assign) and len(out[-1].targets) == 1 \
+                    and isinstance(out[-1].targets[0], ast.Name) and out[-1].targets[0].id == st.iter.id:
+                # `table = ((…), (…))` immediately in front of `for … in table:` and read nowhere else in this block
+                reads = sum(1 for s2 in body for n in ast.walk(s2) if isinstance(n, ast.Name) and n.id == st.iter.id and isinstance(n.ctx, ast.Load))
+                if reads == 1:
+                    rows = _const_rows(out[-1].value, consts)
+                    # a local table of pure constants is data (rules read it as a table); one that lists variables is a loop written sideways
+                    if rows is not None and not any(isinstance(y, ast.Name) for r in rows if not isinstance(r, ast.Constant) for y in r.elts):
+                        rows = None
+                    local_table = out[-1] if rows is not None else None
             tg = st.target
             names = [tg.id] if isinstance(tg, ast.Name) else ([e.id for e in tg.elts] if isinstance(tg, ast.Tuple) and all(isinstance(e, ast.Name) for e in tg.elts) else None)
             if rows is not None and names:
@@ -437,14 +494,19 @@ def _n11(body: List[ast.stmt], consts, stats) -> List[ast.stmt]:
                 stored = any(isinstance(n, ast.Name) and n.id in names and isinstance(n.ctx, ast.Store) for b in st.body for n in ast.walk(b))
                 later = any(isinstance(n, ast.Name) and n.id in names for s2 in body[i + 1:] for n in ast.walk(s2))
                 shapes_ok = all((isinstance(r, ast.Constant) and len(names) == 1) or (not isinstance(r, ast.Constant) and len(r.elts) == len(names)) for r in rows)
-                if not jumps and not stored and not later and shapes_ok:
+                # names standing in the table keep their value through the loop
+                row_names = {y.id for r in rows if not isinstance(r, ast.Constant) for y in r.elts if isinstance(y, ast.Name)}
+                rebinds = any(isinstance(n, ast.Name) and n.id in row_names and isinstance(n.ctx, (ast.Store, ast.Del)) for b in st.body for n in ast.walk(b)) or bool(row_names & set(names))
+                if not jumps and not stored and not later and shapes_ok and not rebinds:
+                    if local_table is not None:
+                        out.pop()
                     for r in rows:
                         vals = {names[0]: r} if isinstance(r, ast.Constant) else dict(zip(names, r.elts))
 
                         class S(ast.NodeTransformer):
                             def visit_Name(self, node):
                                 if node.id in vals and isinstance(node.ctx, ast.Load):
-                                    return ast.copy_location(ast.Constant(value=vals[node.id].value), node)
+                                    return ast.copy_location(_clone(vals[node.id]), node)
                                 return node
                         for b in st.body:
                             out.append(S().visit(_clone(b)))
@@ -589,6 +651,24 @@ def _encloses_loop(fnode, record_stmt, store_name) -> bool:
     return False
 
 
+def _n15(body: List[ast.stmt], stats) -> List[ast.stmt]:
+    """N15  `x = f(…) if c else y` (a conditional expression that decides whether a call happens)  ->  `if c: x = f(…)  else: x = y`,
+    so that the call has its condition as a guard like any other statement.  Pure selections (`a if c else b` without calls) stay."""
+    out: List[ast.stmt] = []
+    for st in body:
+        if isinstance(st, ast.Assign) and len(st.targets) == 1 and isinstance(st.targets[0], ast.Name) and isinstance(st.value, ast.IfExp) \
+                and any(isinstance(n, ast.Call) for part in (st.value.body, st.value.orelse) for n in ast.walk(part)) \
+                and not any(isinstance(n, (ast.NamedExpr, ast.Yield, ast.YieldFrom, ast.Await)) for n in ast.walk(st.value)):
+            v = st.value
+            a = ast.copy_location(ast.Assign(targets=[_clone(st.targets[0])], value=v.body, lineno=st.lineno), st)
+            b = ast.copy_location(ast.Assign(targets=[_clone(st.targets[0])], value=v.orelse, lineno=st.lineno), st)
+            out.append(ast.copy_location(ast.If(test=v.test, body=[a], orelse=[b]), st))
+            stats['N15'] = stats.get('N15', 0) + 1
+        else:
+            out.append(st)
+    return out
+
+
 def _n14(body: List[ast.stmt], stats) -> List[ast.stmt]:
     """N14  `d['a'], d['b'] = (x, y)` with plain names / constants on the right and at least one non-name target (what inlining a helper that
     returns a pair leaves behind)  ->  `d['a'] = x; d['b'] = y`.  Nothing on the right or in a later target may read a name stored earlier."""
@@ -631,6 +711,7 @@ def normalise(tree: ast.AST, ref: dict = None) -> Dict[str, int]:
                     ent = ref.get(q)
                     if ent is not None:
                         _n13(n, records, stats)
+                        _split_new_name_tuples(n, {x[0] for x in ent.get('l', [])})
                         _n8(n, {x[0] for x in ent.get('l', [])}, stats)
                         _n9(n, {x[0] for x in ent.get('l', [])}, stats)
                     rec(n.body, q)
@@ -651,6 +732,7 @@ def normalise(tree: ast.AST, ref: dict = None) -> Dict[str, int]:
             body = _n5(body, stats)
             body = _n10(body, stats)
             body = _n14(body, stats)
+            body = _n15(body, stats)
         body = [_n2(x, stats) for x in body]
         body = _n1(body, nested, stats)
         if in_loop and os.environ.get('VERIF_N3'):
